@@ -19,8 +19,13 @@ impl Table for Tpm2T {
         vec![FT::E(2), FT::U(64), FT::E(7)]
     }
     fn alphabet(&self, _c: &Ctor, h: &[Op], level: u8) -> Vec<Op> {
+        // set_log_area documents that it may be called once; a repeated call is still offered (it must either be
+        // refused, leaving the table as it was, or leave a consistent table)
+        if h.len() >= 2 {
+            return vec![];
+        }
         if !h.is_empty() {
-            return vec![]; // documented refusal: set_log_area asserts it is called once
+            return vec![Op::new(0, 0, 1), Op::new(0, 0, 3)];
         }
         super::simple::fills(level).iter().map(|f| Op::new(0, 0, *f)).collect()
     }
@@ -31,7 +36,11 @@ impl Table for Tpm2T {
         let mut t = tpm2::Tpm2::new(c.oem_id(), c.oem_table_id(), c.oem_rev(), pc, c.fill.u64(1), sm);
         obs(0, &t, &[]);
         for (i, op) in ops.iter().enumerate() {
-            t.set_log_area(op.fill.u32(0), op.fill.u64(1));
+            if i == 0 {
+                t.set_log_area(op.fill.u32(0), op.fill.u64(1));
+            } else if crate::util::catch(|| t.set_log_area(op.fill.u32(0), op.fill.u64(1))).is_err() {
+                crate::seq::note_refused(i);
+            }
             obs(i + 1, &t, &[]);
         }
     }
@@ -718,7 +727,7 @@ impl Table for SdtT {
             v.push(Op::new(4, n, 2));
         }
         let len = sdt_len(c, h);
-        let mut offs = vec![0usize, 9, 10, 32];
+        let mut offs = vec![0usize, 4, 9, 10, 32];
         if len > 36 {
             offs.push(len - 1);
         }
